@@ -118,6 +118,11 @@ fn frontend_channel(rep: &mut Report, res: &Resources, ops: &[FeOp]) {
                 rep.evaluations += 1;
                 rep.transitions += 1;
                 let case = json!({"check":"C01","part":"frontend","op":format!("{op:?}"),"reply_ack":reply_ack,"need_reply":need_reply});
+                if r.is_err() && got.bytes.is_empty() && got.nfds() == 0 && !op.wire_valid() {
+                    // refused locally (the request would not be a valid message): nothing on the wire
+                    rep.outcome("request:refused-locally");
+                    continue;
+                }
                 let (want, wfds) = correct_request(op, flags, res);
                 match wire_diff(&got, &want, &wfds, &dont_care_ranges(op)) {
                     None => {
